@@ -135,7 +135,7 @@ def gen_query(rng):
         key = rng.choice(["ext", "dir", "is_dir", "uid"])
         agg = rng.choice(AGG_GROUPS)[0]
         toks += [T("col", key, COL_GROUPS), Tok("comma", ",", glue="L"), T("agg", agg, AGG_GROUPS, "R"), Tok("open", "(", glue="LR"),
-                 T("col", "size"), Tok("close", ")", glue="L")]
+                 (Tok("lit", "*") if agg == "count" and rng.random() < 0.7 else T("col", "size")), Tok("close", ")", glue="L")]
     else:
         n = rng.randint(1, 3)
         for i in range(n):
@@ -194,6 +194,13 @@ def directed_queries():
         out.append(toks + [Tok("close", ")", glue="L")] + tail)
     for g in AGG_GROUPS:
         out.append([Tok("agg", g[0], g, "R"), Tok("open", "(", glue="LR"), Tok("col", "size"), Tok("close", ")", glue="L")] + tail)
+    out.append([Tok("agg", "count", group_of(AGG_GROUPS, "count"), "R"), Tok("open", "(", glue="LR"), Tok("lit", "*"), Tok("close", ")", glue="L")] + tail)
+    out.append([Tok("agg", "count", group_of(AGG_GROUPS, "count"), "R"), Tok("open", "(", glue="LR"), Tok("lit", "*"), Tok("close", ")", glue="L"),
+                Tok("comma", ",", glue="L"), Tok("agg", "max", group_of(AGG_GROUPS, "max"), "R"), Tok("open", "(", glue="LR"), Tok("col", "size"),
+                Tok("arith", "*", group_of(ARITH_GROUPS, "*")), Tok("num", "2"), Tok("close", ")", glue="L")] + tail)
+    out.append([Tok("col", "name"), Tok("kw", "from"), Tok("path", "t"), Tok("kw", "where"), Tok("open", "(", glue="R"), Tok("col", "size"),
+                Tok("arith", "%", group_of(ARITH_GROUPS, "%")), Tok("num", "2"), Tok("close", ")", glue="L"), Tok("op", "=", group_of(OP_GROUPS, "=")),
+                Tok("num", "0"), Tok("kw", "into"), Tok("fmt", "list")])
     for g in NOARG_GROUPS:
         out.append([Tok("col", "name"), Tok("comma", ",", glue="L"), Tok("noargfn", g[0], g, "R"), Tok("open", "(", glue="LR"),
                     Tok("close", ")", glue="L")] + tail)
